@@ -44,12 +44,16 @@ SPEC = {
              "and once more after the nest - raised or lowered, also below the number of rows a trace holds unwritten at that moment); "
              "every batch consumeTrace() delivered (also the empty ones) is copied at once and kept, and read again after the "
              "collection ended; all traces requested, or a random "
-             "subset of the (rank, type) pairs and its complement, each judged against the ground truth of its own run.  Non-trivial "
+             "subset of the (rank, type) pairs and its complement, each judged against the ground truth of its own run.  Histories: a two-level "
+             "nest traced in a collection that follows an earlier collection under the same prefix - an ordinary nest or a loop driven by a "
+             "projection between two of the later nest's loop ranks (either direction) or foreign ranks - which ended normally, was abandoned "
+             "after endCollect() refused to drop an unread in-memory trace, or was abandoned without endCollect().  Non-trivial "
              "= at least 2 trace files with at least 2 data rows each; distinct = distinct case."),
     "shards": {"quick": 16, "thorough": 16},
     "min_counts": {"quick": {"evaluations": 100, "files_checked": 600, "rows_matched": 1500, "flush_variants_compared": 300,
                              "inserting_visits": 20, "noninserting_visits": 300, "project_rows": 30, "startpos_traces": 30, "bounded_nests": 30,
-                             "projections_with_start_pos": 60, "stale_file_sessions": 30,
+                             "projections_with_start_pos": 60, "stale_file_sessions": 30, "abandoned_first_collections": 15,
+                             "first_collections_matching_loop_ranks": 8, "abandoned_first_collections_matching_loop_ranks": 4,
                              "nested_intersection_visits": 60, "leader_follower_visits": 50, "wide_coiteration_visits": 70,
                              "dense_ref_outer_nests": 25, "prepared_ahead_nests": 20, "prepared_ahead_leader_follower_nests": 6,
                              "trace_subsets_judged": 200, "write_without_read_subsets": 5, "inserting_moves_judged": 60,
@@ -66,6 +70,7 @@ SPEC = {
         "destination-side traces of an inserting populate (first source coordinate below the destination's maximum, compressed destination) are only required to be stamp-ordered and complete; complete = the write trace holds exactly one row per kept write plus one per moved element, the read trace at least one row per read of an element that was already there plus one per moved element (the reads of the search for the insertion place are not modelled); moved elements = the non-empty elements from the first inserted one to the end of the fiber as it is when the populate ends",
         "which traces are requested does not change which accesses a requested trace must hold; it may change the stamps (only their order is judged in a subset configuration).",
         "endCollect() refuses (AssertionError) to end a collection whose in-memory traces hold unconsumed rows; after the rows have been consumed a second endCollect() ends it, and the refused call must not have changed what the traces hold",
+        "a collection started with beginCollect() is described by its own loop nest only: nothing an earlier collection did (rank matches made by projections, trace requests, files under the same prefix) carries over, whether that collection ended, was refused by endCollect() or was never ended",
         "Metrics.setNumCachedUses() may be called while a collection runs; it only changes how many rows are buffered before a flush, so the content of every trace is that of the collection run with a fixed threshold",
         "a batch returned by consumeTrace() belongs to the consumer: the library neither appends to it nor delivers its rows again, so read after the collection it holds exactly the rows it held when it was delivered",
         "a projected fiber consumed directly by the innermost loop (no populate / intersection on top of it, default tick): its source rank is matched to the loop rank, so the project_i header names the loop ranks; rows carry the source coordinate",
@@ -94,7 +99,14 @@ def generate(rng, tier, shard, nshards, mon):
             M, K = rng.randint(1, 3), rng.randint(1, 5)
             yield {"kind": "stale", "M": M, "K": K, "a1": gen.rand_tree_spec(rng, [M, K], 0.9, 0.0, 0),
                    "a2": gen.rand_tree_spec(rng, [M, K], rng.choice([0.0, 0.0, 0.5, 0.9]), 0.0, 0),
-                   "order": rng.choice(["file", "mem-then-file", "file-then-mem"]), "ncu": rng.choice([2, 1000])}
+                   "order": rng.choice(["file", "mem-then-file", "file-then-mem"]), "ncu": rng.choice([2, 1000]),
+                   # the earlier collection: the same kind of nest, or a loop driven by a projection from rank `src` onto rank `dst`
+                   # (ranks of the later nest or foreign ones); ended normally, abandoned after endCollect() refused to drop an
+                   # unread in-memory trace, or abandoned without any endCollect()
+                   "first": {"kind": rng.choice(["nest", "project", "project"]),
+                             "ranks": rng.choice([["K", "M"], ["K", "M"], ["M", "K"], ["M", "K"], ["W", "M"], ["W", "K"], ["K", "J"], ["W", "J"]]),
+                             "p": gen.rand_leaf_spec(rng, rng.randint(2, 6), 0.9, 0.0, 0), "shift": rng.randint(0, 2),
+                             "end": rng.choice(["normal", "refused", "never"])}}
             continue
         if i % 10 == 6:
             # inner intersection consumed through a bounded range that may end before the operands do
@@ -1322,7 +1334,41 @@ def _run_bounded(case, mon, prefix):
 
 
 def _run_stale(case, mon, prefix):
-    """Two collections with the same prefix; the trace files left by the second describe the second only."""
+    """Two collections with the same prefix; the traces of the second describe the second only - whatever the first one did
+    (an ordinary nest or a projection-driven loop, which matches ranks) and however it ended (normally, abandoned after a
+    refused endCollect(), abandoned without endCollect())."""
+    first = case.get("first") or {"kind": "nest", "end": "normal"}
+    info = {"refused": False, "mem": {}}
+
+    def finish(end):
+        if end == "never":
+            return
+        try:
+            Metrics.endCollect()
+        except AssertionError:
+            # an in-memory trace nobody read: the collection is abandoned as it is
+            info["refused"] = True
+
+    def earlier():
+        lazy = first["end"] == "refused"
+        Metrics.setNumCachedUses(1000)
+        Metrics.beginCollect(prefix)
+        if first["kind"] == "project":
+            src, dst = first["ranks"]
+            P = Tensor.fromFiber(rank_ids=[src], fiber=gen.fiber_from_spec(first["p"], 0), shape=[12])
+            Metrics.trace(src, type_="project_0", consumable=lazy)
+            sh = first["shift"]
+            for c, v in P.getRoot().project(trans_fn=lambda x: x + sh, rank_id=dst):
+                pass
+        else:
+            A = gen.tensor_from_spec(case["a1"], ["M", "K"], shape=[case["M"], case["K"]], default=0)
+            Metrics.trace("M", type_="iter")
+            Metrics.trace("K", type_="iter", consumable=lazy)
+            for m, a_k in A.getRoot():
+                for k, v in a_k:
+                    pass
+        finish(first["end"])
+
     def nest(spec, order, ncu):
         A = gen.tensor_from_spec(spec, ["M", "K"], shape=[case["M"], case["K"]], default=0)
         exp = {"M": [], "K": []}
@@ -1350,11 +1396,12 @@ def _run_stale(case, mon, prefix):
                 pass
         if order != "file":
             for r in ("M", "K"):
-                Metrics.consumeTrace(r, "iter")     # consumable traces must be drained before the collection ends
+                # consumable traces must be drained before the collection ends
+                info["mem"][r] = [[str(x) for x in row] for row in Metrics.consumeTrace(r, "iter")]
         Metrics.endCollect()
         return exp
     try:
-        nest(case["a1"], "file", 1000)
+        earlier()
         exp = nest(case["a2"], case["order"], case["ncu"])
     except BaseException as e:      # noqa
         if isinstance(e, KeyboardInterrupt):
@@ -1362,18 +1409,38 @@ def _run_stale(case, mon, prefix):
         mon.violation(f"second-collection:raised:{type(e).__name__}", f"second collection under the same prefix raised {type(e).__name__}: {e}; {case}")
         return
     mon.count("stale_file_sessions")
+    abandoned = first["end"] == "never" or info["refused"]
+    mon.count("abandoned_first_collections", int(abandoned))
+    matching = first["kind"] == "project" and set(first["ranks"]) == {"M", "K"}
+    mon.count("first_collections_matching_loop_ranks", int(matching))
+    mon.count("abandoned_first_collections_matching_loop_ranks", int(matching and abandoned))
+    hist = (f"after an earlier collection under the same prefix ({first['kind']}"
+            f"{' ' + '->'.join(first['ranks']) if first['kind'] == 'project' else ''}, ended: {first['end']}"
+            f"{'/refused' if info['refused'] else ''}; traces of the later one requested {case['order']})")
     for r, ncol in (("M", 1), ("K", 2)):
         rows = _read_csv(f"{prefix}-{r}-iter.csv") or []
         mon.count("files_checked")
-        data = rows[1:]
-        got = [tuple(x[ncol:]) for x in data]
         want = exp[r]
-        if mon.check(got == want, "iter:rows:second-collection-same-prefix",
-                     f"after a second collection under the same prefix (traces requested {case['order']}) file {r}/iter holds rows "
-                     f"{got[:6]}, the second collection's accesses were {want[:6]}"):
-            mon.count("rows_matched", len(want))
         if not want:
             mon.count("stale_files_expected_rowless")
+        header = [x + "_pos" for x in ("M", "K")[:ncol]] + list(("M", "K")[:ncol]) + ["fiber_pos"]
+        if rows or want:
+            # the trace starts with the header naming the later collection's loop ranks, and holds it once
+            if not mon.check(rows[:1] == [header], "iter:header:after-earlier-collection",
+                             f"{hist}: file {r}/iter starts with {rows[:1]}, header expected {header}"):
+                continue
+            if not mon.check(all(len(x) == 2 * ncol + 1 and x != header for x in rows[1:]), "iter:header-repeated-or-row-width:after-earlier-collection",
+                             f"{hist}: file {r}/iter holds rows that are no data rows: {[x for x in rows[1:] if len(x) != 2 * ncol + 1 or x == header][:3]}"):
+                continue
+        data = rows[1:]
+        got = [tuple(x[ncol:]) for x in data]
+        if mon.check(got == want, "iter:rows:second-collection-same-prefix",
+                     f"{hist}: file {r}/iter holds rows {got[:6]}, the second collection's accesses were {want[:6]}"):
+            mon.count("rows_matched", len(want))
+        if r in info["mem"]:
+            mon.count("flush_variants_compared")
+            mon.check((info["mem"][r] or []) == rows, "flush:consumable-differs",
+                      f"{hist}: in-memory trace {r}/iter delivers {info['mem'][r][:4]}, the file holds {rows[:4]}")
     if len(exp["K"]) >= 2:
         mon.nontrivial()
-    mon.state(("stale", case["order"], len(exp["K"])))
+    mon.state(("stale", case["order"], first["kind"], first["end"], len(exp["K"])))
